@@ -6,6 +6,8 @@ import Texel.Model.Dispatch
 import Texel.Model.Cli
 import Texel.Model.QuadTree
 import Texel.Model.Tile
+import Texel.Model.TmsJson
+import Lean.Data.Json
 /-! `texeldrv`: the executable model behind a one-line-in, one-line-out protocol (core-only, links as `lean_exe`).
 The Go harness sends the same operation lines to the real code and to this driver and compares the answers. -/
 open Texel
@@ -111,7 +113,30 @@ def parseTMs (ws : List String) : Option (List QT.TM) := do
     out := out ++ [tm]
   return out
 
+partial def toTJ : Lean.Json → TJ.J
+  | .null => .null
+  | .bool b => .bool b
+  | .num n => .num ⟨n.mantissa, n.exponent⟩
+  | .str s => .str s
+  | .arr xs => .arr (xs.toList.map toTJ)
+  | .obj kvs => .obj (kvs.toList.map fun (k, v) => (k, toTJ v))
+
+partial def ofTJ : TJ.J → Lean.Json
+  | .null => .null
+  | .bool b => .bool b
+  | .num n => .num ⟨n.m, n.e⟩
+  | .str s => .str s
+  | .arr xs => .arr (xs.map ofTJ).toArray
+  | .obj kvs => Lean.Json.mkObj (kvs.map fun (k, v) => (k, ofTJ v))
+
 def handle (line : String) : String :=
+  if line.startsWith "tmsdoc " then
+    match Lean.Json.parse (line.drop 7).toString with
+    | .error _ => "err"
+    | .ok j => match TJ.decode (toTJ j) with
+      | .error _ => "err"
+      | .ok t => "ok " ++ (ofTJ (TJ.encode t)).compress
+  else
   match line.trimAscii.toString.splitOn " " with
   | ["tz", xs, ys] =>
     match xs.toNat?, ys.toNat? with
